@@ -217,9 +217,11 @@ fn check_dataitem(cfg: &Cfg, bars: &[Bar], out: &mut JobOut) {
 /// price traits an indicator is documented to need).
 fn surface(res: &mut CheckResult) {
     let dummy = Cfg::p0(Kind::Obv);
+    let surface_dir = std::env::var("VERIF_SURFACE_DIR").unwrap_or_else(|_| "/verif/surface".to_string());
+    let target_dir = std::env::var("CARGO_TARGET_DIR").unwrap_or_else(|_| "/verif/target".to_string());
     let build = std::process::Command::new("cargo")
-        .args(["build", "--release", "--offline", "--manifest-path", "/verif/surface/Cargo.toml"])
-        .env("CARGO_TARGET_DIR", "/verif/target")
+        .args(["build", "--release", "--offline", "--manifest-path", &format!("{}/Cargo.toml", surface_dir)])
+        .env("CARGO_TARGET_DIR", &target_dir)
         .env("CARGO_NET_OFFLINE", "true")
         .output();
     let build = match build {
@@ -241,7 +243,7 @@ fn surface(res: &mut CheckResult) {
         return;
     }
     res.out.stats.add("surface_crate_built", 1);
-    match std::process::Command::new("/verif/target/release/surface").output() {
+    match std::process::Command::new(format!("{}/release/surface", target_dir)).output() {
         Ok(o) => {
             let text = String::from_utf8_lossy(&o.stdout).to_string();
             res.out.stats.add("surface_minimal_type_runs", 43);
@@ -309,16 +311,20 @@ pub fn run(ctx: &Ctx) -> CheckResult {
             c2.push(Cfg::pm(Kind::Kc, n, 2.0));
         }
         c2.push(Cfg::p0(Kind::Tr));
+        // second alphabet: prices one ulp apart and in a 1e-17 unit (spreads below f64::EPSILON)
+        let xs2 = [1.0, 0.75, 0.7500000000000001, 2e-17, 3e-17];
         let outs = par_run(ctx, &c2, |_, cfg| {
             let mut out = JobOut::default();
             let mut v = vec![];
-            for_each_seq_exact(xs.len(), d1, |seq| {
-                v.clear();
-                v.extend(seq.iter().map(|&a| xs[a as usize]));
-                out.stats.states += 1;
-                check_one_price(cfg, &v, &mut out);
-                !out.failed()
-            });
+            for alpha in [&xs, &xs2] {
+                for_each_seq_exact(alpha.len(), d1, |seq| {
+                    v.clear();
+                    v.extend(seq.iter().map(|&a| alpha[a as usize]));
+                    out.stats.states += 1;
+                    check_one_price(cfg, &v, &mut out);
+                    !out.failed()
+                });
+            }
             out
         });
         res.absorb(merge_jobs(outs));
@@ -346,7 +352,7 @@ pub fn run(ctx: &Ctx) -> CheckResult {
     }
     res.extra.insert("documented_fields".into(), json!(ALL_KINDS.iter().map(|k| (k.name().to_string(), format!("{:?}", documented(*k)))).collect::<std::collections::BTreeMap<_, _>>()));
     res.rule = "case = (configuration, bar sequence): outputs of Next<&T> on bars whose five fields vary independently compared (1e-12 relative) with (i) Next<f64> on the documented field, (iii) the same sequence with every undocumented field replaced (all at once finite / NaN, and one at a time), (iv) a second implementor storing integers, and DataItem on valid bars; (ii) one-price bars vs scalar path; non-trivial = perturbation comparisons".into();
-    res.bounds = format!("all 22 indicators, periods {{1,3}}; all 8^{depth} sequences over B_free; one-price: all 5^{} scalar sequences for FAST_STOCH/SLOW_STOCH/TR/ATR/KC n in {{1,2,3,5}}; DataItem: all 10^{} sequences of valid bars", if th { 7 } else { 6 }, if th { 5 } else { 4 });
+    res.bounds = format!("all 22 indicators, periods {{1,3}}; all 8^{depth} sequences over B_free; one-price: all 5^{} scalar sequences over {{1,2.5,0.1,7,-3}} and over {{1, 0.75, 0.75+1ulp, 2e-17, 3e-17}} for FAST_STOCH/SLOW_STOCH/TR/ATR/KC n in {{1,2,3,5}}; DataItem: all 10^{} sequences of valid bars", if th { 7 } else { 6 }, if th { 5 } else { 4 });
     res.assumptions = vec!["minimal-trait user types (CloseOnly, Hlc, ...) are compiled and run by the separate /verif/surface crate as part of this check".into()];
     res
 }
